@@ -17,7 +17,7 @@ def _residue(linter) -> list[str]:
     """Which stateful slots are non-empty (coverage accounting only, never an oracle)."""
     out = []
     try:
-        orch = linter.orchestrator
+        orch = _orch(linter)
         for rule in orch.registry.list_all():
             n = type(rule).__name__
             if getattr(rule, "_storage", None) is not None:
@@ -36,21 +36,43 @@ def _residue(linter) -> list[str]:
     return sorted(set(out))
 
 
+def build(ctor: str | None, root: str, as_str: bool | None):
+    """Construct the long-lived object the way the history says (Linter or bare Orchestrator)."""
+    from src.api import Linter
+    r = root if as_str else Path(root)
+    if ctor == "linter_cfg":
+        return Linter(config_file=str(Path(root) / ".thailint.yaml"), project_root=r)
+    if ctor in ("orch", "orch_cfg"):
+        from src.orchestrator.core import Orchestrator
+        if ctor == "orch_cfg":
+            from src.linter_config.loader import LinterConfigLoader
+            return Orchestrator(project_root=Path(root), config=LinterConfigLoader().load(Path(root) / ".thailint.yaml"))
+        return Orchestrator(project_root=Path(root))
+    return Linter(project_root=r)
+
+
+def _orch(obj):
+    return getattr(obj, "orchestrator", obj)
+
+
 def _do_lint(linter, op: dict) -> dict:
     api = op["api"]
     paths = op["paths"]
     if api == "linter":
         p = paths[0]
-        vs = linter.lint(p if op.get("as_str") else Path(p))
+        if op.get("rules"):
+            vs = linter.lint(p if op.get("as_str") else Path(p), rules=list(op["rules"]))
+        else:
+            vs = linter.lint(p if op.get("as_str") else Path(p))
     elif api == "orch_files":
-        vs = linter.orchestrator.lint_files([Path(p) for p in paths])
+        vs = _orch(linter).lint_files([Path(p) for p in paths])
     elif api == "orch_dir":
-        vs = linter.orchestrator.lint_directory(Path(paths[0]), recursive=op.get("recursive", True))
+        vs = _orch(linter).lint_directory(Path(paths[0]), recursive=op.get("recursive", True))
     elif api == "orch_files_par":
-        vs = linter.orchestrator.lint_files_parallel([Path(p) for p in paths], max_workers=op.get("W"))
+        vs = _orch(linter).lint_files_parallel([Path(p) for p in paths], max_workers=op.get("W"))
     elif api == "orch_dir_par":
-        vs = linter.orchestrator.lint_directory_parallel(Path(paths[0]), recursive=op.get("recursive", True),
-                                                         max_workers=op.get("W"))
+        vs = _orch(linter).lint_directory_parallel(Path(paths[0]), recursive=op.get("recursive", True),
+                                                   max_workers=op.get("W"))
     else:
         raise ValueError(api)
     return {"violations": [ops.vtuple(v) for v in vs], "exit": None}
@@ -80,8 +102,7 @@ def _do_cli(op: dict) -> dict:
 
 def s_new(arg: dict) -> dict:
     ops.enter(arg["env"])
-    from src.api import Linter
-    _objs()[arg["name"]] = Linter(project_root=arg["root"] if arg.get("as_str") else Path(arg["root"]))
+    _objs()[arg["name"]] = build(arg.get("ctor"), arg["root"], arg.get("as_str"))
     return {"ok": True}
 
 
@@ -127,10 +148,9 @@ def o_lint(arg: dict) -> dict:
         if prime:
             os.chdir(arg["env"]["cwd"])
         return ops._finish(ctx, _do_cli(op))
-    from src.api import Linter
-    linter = Linter(project_root=arg["root"] if arg.get("as_str") else Path(arg["root"]))
+    linter = build(arg.get("ctor"), arg["root"], arg.get("as_str"))
     if prime:
-        ensure = getattr(linter.orchestrator, "_ensure_rules_discovered", None)
+        ensure = getattr(_orch(linter), "_ensure_rules_discovered", None)
         if ensure is not None:
             ensure()
         os.chdir(arg["env"]["cwd"])
